@@ -19,6 +19,8 @@ import io
 import os
 import pathlib
 
+from sim.kernel import check_foreign as _check_foreign
+
 PREFIX = "/simfs/"
 _real_open = builtins.open
 _real_isfile = os.path.isfile
@@ -58,6 +60,7 @@ class FS:
 
     # ---- helpers
     def _op(self, op, path, detail=""):
+        _check_foreign()
         if self.seam:
             self.seam("fs." + op)
         i = self.opcount
